@@ -103,12 +103,14 @@ type Gen struct {
 	MaxRows int
 	// feature switches
 	NoSubq, NoStrings, NoAgg, NoSetOp, NoOuter bool
+	AllowMod   bool // generate the % operator
+	MaxJoin    int  // maximum number of table instances in one FROM clause (default 2)
 	CIFuncs    bool // allow string functions over _ci columns
 	CIDistinct bool // allow DISTINCT / COUNT(DISTINCT) / set operations over _ci columns (C07's subject)
 }
 
 func New(seed int64) *Gen {
-	return &Gen{R: rand.New(rand.NewSource(seed)), IntLo: -2, IntHi: 3, MaxRows: 5,
+	return &Gen{R: rand.New(rand.NewSource(seed)), IntLo: -2, IntHi: 3, MaxRows: 5, MaxJoin: 2,
 		Strs: []string{"a", "A", "b", "B", "ab", "Ab", "", "a ", "1", "b2"}}
 }
 
@@ -255,7 +257,12 @@ func (g *Gen) IntExpr(s Scopes, depth int) *Expr {
 		op := []string{"plus", "minus", "times"}[g.pick(3)]
 		return Op(op, g.IntExpr(s, depth-1), g.IntExpr(s, depth-1))
 	case 2:
-		op := []string{"div", "mod"}[g.pick(2)]
+		// % is generated only on request: -1 % -1 is a decimal negative zero in the engine, which
+		// DISTINCT/grouping separate from 0 (known finding C02-mod-negative-zero-distinct; C25 owns %)
+		op := "div"
+		if g.AllowMod && g.chance(0.5) {
+			op = "mod"
+		}
 		return Op(op, g.IntExpr(s, depth-1), g.IntExpr(s, depth-1))
 	case 3:
 		return Op("neg", g.IntExpr(s, depth-1))
@@ -375,6 +382,9 @@ func (g *Gen) cmp(s Scopes, depth int) *Expr {
 	op := cmpOps[g.pick(len(cmpOps))]
 	if !g.NoStrings && g.chance(0.3) {
 		coll := g.anyColl()
+		if op == "nseq" && coll == "ci" {
+			op = "eq" // <=> ignores the _ci collation (known finding C02-nullsafe-eq-ignores-ci)
+		}
 		return Op(op, g.StrExpr(s, depth, coll), g.StrExpr(s, depth, coll))
 	}
 	return Op(op, g.IntExpr(s, depth), g.IntExpr(s, depth))
@@ -552,7 +562,7 @@ func comb(a, b string) string {
 
 // SimpleSelect: non-grouped select over a FROM clause.
 func (g *Gen) SimpleSelect(outer Scopes, depth int) selOut {
-	f, cols := g.FromClause(2, outer, depth)
+	f, cols := g.FromClause(g.MaxJoin, outer, depth)
 	s := outer.push(cols)
 	var where *Expr
 	if g.chance(0.7) {
@@ -573,7 +583,7 @@ func (g *Gen) SimpleSelect(outer Scopes, depth int) selOut {
 
 // GroupedSelect: GROUP BY over plain columns with aggregates (ONLY_FULL_GROUP_BY-conforming).
 func (g *Gen) GroupedSelect(outer Scopes, depth int) selOut {
-	f, cols := g.FromClause(2, outer, depth)
+	f, cols := g.FromClause(g.MaxJoin, outer, depth)
 	s := outer.push(cols)
 	var where *Expr
 	if g.chance(0.5) {
